@@ -30,8 +30,14 @@ RULE = ("kernel: the full grid of 12 mode spellings x tolerances {None,0,1/4,1/2
         "shuffled dimension and coordinate order, NaN injected with p=0.15, threshold lists of 1-4 values (sorted, tied, unsorted, NaN, scalar), "
         "invalid modes and negative tolerances for the error paths; contingency: event thresholds from {None,0,-1/2,-2,1/4,1,...} x operators "
         "{None,ge,gt,le,lt,eq,ne} x every reduce/preserve spelling; a case is distinct by the hash of (function, inputs, options), non-trivial "
-        "when at least one non-NaN cell exists")
-ASSUMPTIONS = ["inputs of the correspondence are dyadic rationals, so `comparison +- abs_tolerance` is exact in binary64"]
+        "when at least one non-NaN cell exists; precision stream: float32 / float16 / float64 data whose cells sit on the threshold rounded to "
+        "the storage type, one unit in the last place and 1e-12 ... 0.4 either side of 1-3 decimal thresholds those types cannot hold (0.7, 0.1, "
+        "0.001, 1/3, 0.3 next to 0.1+0.2, ...), tolerances None/0/1e-8/1e-6/1e-3/1/4; contingency: the same near-threshold values around the "
+        "threshold in force in 40% of the cases, non-dyadic event thresholds including the signature default 0.001")
+ASSUMPTIONS = ["inputs of the correspondence are dyadic rationals, so `comparison +- abs_tolerance` is exact in binary64; non-dyadic inputs are tied to "
+               "the model only where nothing is added to the threshold (tolerance None / 0, event operators)",
+               "with a non-zero tolerance on non-dyadic inputs the exact oracle leaves a cell undecided when its distance from the threshold is within "
+               "1e-12 of the tolerance (binary64 rounding of `comparison +- abs_tolerance`)"]
 
 OPNAME = {operator.ge: "ge", operator.gt: "gt", operator.le: "le", operator.lt: "lt", operator.eq: "eq", operator.ne: "ne"}
 STR_MODES = [">=", ">", "<=", "<", "==", "!="]
@@ -167,22 +173,34 @@ def rand_mode(rng):
     return rng.choice(STR_MODES + OP_MODES)
 
 
-def oracle_discretise(ctx, data, ts, scalar, mode, tol, sq, out, desc):
-    """binary_discretise output against the per-cell oracle (valid mode, sorted finite thresholds)"""
+def oracle_discretise(ctx, data, ts, scalar, mode, tol, sq, out, desc, band=None):
+    """binary_discretise output against the per-cell oracle (valid mode, sorted finite thresholds).
+    The oracle is exact (fractions of the values the data holds, whatever its storage type, and of the thresholds as passed).
+    `band`: with a non-zero tolerance on non-dyadic inputs `comparison +- abs_tolerance` is rounded in binary64; cells whose distance
+    from the threshold is within `band` of the tolerance are not decided by the oracle (never needed for tolerance None / 0).
+    -> list of per-threshold expectation arrays (NaN where undecided / missing) or None after a violation"""
     k = STR_MODES.index(mode) if isinstance(mode, str) else OP_MODES.index(mode)
     tl = [ts] if scalar else list(ts)
     squeezed = (scalar or sq) and len(tl) == 1
     dv = np.asarray(data.values, float)
+    ftol = Fraction(tol or 0)
+    exps = []
     for j, t in enumerate(tl):
         got = out if squeezed else out.isel(threshold=j)
         got = np.asarray(got.transpose(*data.dims).values, float)
-        exp = np.array([py_rel(k, float(v) if (np.isnan(v) or np.isinf(v)) else Fraction(float(v)), Fraction(t), Fraction(tol or 0))
+        exp = np.array([py_rel(k, float(v) if (np.isnan(v) or np.isinf(v)) else Fraction(float(v)), Fraction(t), ftol)
                         for v in dv.ravel()]).reshape(dv.shape)
-        if not np.array_equal(got, exp, equal_nan=True):
+        decided = np.ones(dv.shape, bool)
+        if band is not None and ftol != 0:
+            decided = np.array([not np.isfinite(v) or abs(abs(Fraction(float(v)) - Fraction(t)) - ftol) > band for v in dv.ravel()]).reshape(dv.shape)
+        if not np.array_equal(np.where(decided, got, 0.0), np.where(decided, exp, 0.0), equal_nan=True):
             ctx.violation("binary_discretise differs from `data <relation> threshold` cell by cell", dict(desc, threshold=t), exp.tolist(), got.tolist())
-            return
+            return None
+        exps.append(exp if decided.all() else None)
     if (not squeezed) and list(np.asarray(out["threshold"].values, float)) != [float(t) for t in tl]:
         ctx.violation("threshold coordinate of binary_discretise is not the threshold list", desc, tl, out["threshold"].values.tolist())
+        return None
+    return exps
 
 
 def discretise_arrays(ctx, i, use_model=True):
@@ -261,6 +279,103 @@ def discretise_arrays(ctx, i, use_model=True):
 
 
 # ----------------------------------------------------------------------------------------------
+# round 3: the relation is a statement about the VALUES held by the data and the thresholds as passed -- not about the storage
+# type of the data: single / half precision data, thresholds those types cannot hold, data on the rounded threshold, one unit in
+# the last place and a few decimal places away from it
+# ----------------------------------------------------------------------------------------------
+DECIMAL_THRESHOLDS = [0.7, 0.1, 0.4, 1.3, -0.3, 0.001, 0.3, 0.1 + 0.2, -1.5, 2.6, 1 / 3, 0.5, 1.0, 0.0, 17.3, -0.05, 0.9, 1e-5, 1234.56]
+OFFSETS = [1e-12, 4e-10, 3e-9, 4e-9, 4e-7, 4e-4, 0.04, 0.4]
+BAND = Fraction(1, 10 ** 12)
+
+
+def near_values(t, dtype):
+    """values exactly representable in `dtype`: the threshold rounded to that type, its two neighbours in that type, and the
+    threshold moved by 1e-12 ... 0.4 (every decimal place a rounding step could work at); the first three are the 'on it' group"""
+    ty = np.dtype(dtype).type
+    with np.errstate(all="ignore"):
+        c = ty(t)
+        out = [c, np.nextafter(c, ty(np.inf)), np.nextafter(c, ty(-np.inf))]
+        for d in OFFSETS:
+            out += [ty(t + d), ty(t - d)]
+    return [float(v) for v in out if np.isfinite(v)]
+
+
+def inject_near(rng, da, thresholds, dtype, p=0.5):
+    """replace a random subset of the non-NaN cells by values on / next to / near one of the thresholds"""
+    pools = [near_values(t, dtype) for t in thresholds]
+    vals = np.asarray(da.values, float).copy().ravel()
+    for n in range(vals.size):
+        if not np.isnan(vals[n]) and rng.random() < p:
+            pool = rng.choice(pools)
+            vals[n] = rng.choice(pool[:3]) if rng.random() < 0.55 else rng.choice(pool)
+    out = da.copy()
+    out.values = vals.reshape(da.shape)
+    return out
+
+
+def discretise_precision(ctx, i, use_model=True):
+    proc = P()
+    rng = ctx.rng
+    dtype = rng.choice(["float32", "float32", "float32", "float16", "float64", "float64"])
+    ts = sorted(set(rng.sample(DECIMAL_THRESHOLDS, rng.randint(1, 3))))
+    scalar = len(ts) == 1 and rng.random() < 0.3
+    sizes = gens.rand_sizes(rng, names=["a", "b", "c"])
+    data = gens.rand_da(rng, sizes, den=4, bound=2, nan_p=0.12 if rng.random() < 0.5 else 0.0)
+    data = inject_near(rng, data, ts, dtype, p=0.6).astype(dtype)
+    if scalar:
+        ts = ts[0]
+    mode = rng.choice(STR_MODES + OP_MODES)
+    tol = rng.choice([None, None, None, 0.0, 1e-8, 1e-6, 1e-3, 0.25])
+    sq = rng.random() < 0.4
+    desc = {"fn": "binary_discretise", "dtype": dtype, "data": gens.da_repr(data), "thresholds": ts, "mode": mode_repr(mode),
+            "abs_tolerance": tol, "autosqueeze": sq}
+    st, out = core.call_impl(proc.binary_discretise, data, ts, mode, abs_tolerance=tol, autosqueeze=sq)
+    ctx.case(desc, bool(np.isfinite(np.asarray(data.values, float)).any()))
+    ctx.count("precision:dtype=" + dtype)
+    ctx.count("precision:tolerance=" + ("none/0" if not tol else "positive"))
+    if i < 1:
+        ctx.sample(desc)
+    if st != "ok":
+        ctx.violation("binary_discretise raises on valid arguments", desc, "0/1/nan array", out)
+        return
+    exps = oracle_discretise(ctx, data, ts, scalar, mode, tol, sq, out, desc, band=BAND)
+    # the same values stored in double precision are classified identically
+    st64, out64 = core.call_impl(proc.binary_discretise, data.astype("float64"), ts, mode, abs_tolerance=tol, autosqueeze=sq)
+    if st64 != "ok" or not np.array_equal(np.asarray(out.values, float), np.asarray(out64.values, float), equal_nan=True):
+        ctx.violation("binary_discretise classifies the same values differently when they are stored as " + dtype + " / float64", desc,
+                      np.asarray(out64.values, float).tolist() if st64 == "ok" else out64, np.asarray(out.values, float).tolist())
+    # comparative_discretise against the scalar threshold directly
+    t0 = ts if scalar else ts[0]
+    stc, cd = core.call_impl(proc.comparative_discretise, data, t0, mode, abs_tolerance=tol)
+    if stc != "ok":
+        ctx.violation("comparative_discretise raises on valid arguments", dict(desc, fn="comparative_discretise", comparison=t0), "0/1/nan array", cd)
+    else:
+        oracle_discretise(ctx, data, t0, True, mode, tol, True, cd, dict(desc, fn="comparative_discretise", comparison=t0), band=BAND)
+    # the proportion over all dims = (valid data for which the relation holds) / (valid data), by exact counting
+    if exps is not None and all(e is not None for e in exps):
+        with np.errstate(all="ignore"):
+            stp, prop = core.call_impl(proc.binary_discretise_proportion, data, ts, mode, abs_tolerance=tol, autosqueeze=sq)
+        if stp != "ok":
+            ctx.violation("binary_discretise_proportion raises on valid arguments", dict(desc, fn="binary_discretise_proportion"), "fractions", prop)
+        else:
+            exp = []
+            for e in exps:
+                v = e[~np.isnan(e)]
+                exp.append(float(Fraction(int(v.sum()), v.size)) if v.size else NAN)
+            got = np.asarray(prop.values, float).ravel().tolist()
+            if len(got) != len(exp) or not all((math.isnan(a) and math.isnan(b)) or abs(a - b) <= 1e-12 for a, b in zip(got, exp)):
+                ctx.violation("proportion is not (valid data for which the relation holds) / (valid data)", dict(desc, fn="binary_discretise_proportion"), exp, got)
+        ctx.count("precision:proportion_checked")
+    # tie with the model where binary64 arithmetic is exact (no tolerance added to the threshold)
+    if use_model and not tol:
+        m = ctx.model("c08_binary_discretise", enc_list([enc_arr(data), enc_nums([ts] if scalar else ts), enc_bool(scalar), enc_mode(mode),
+                                                        enc_opt(tol, enc_num), enc_bool(sq)]))
+        ok, why = core.compare_result((st, out), m)
+        if not ok:
+            ctx.tie_fail("binary_discretise vs model (non-dyadic thresholds): " + why, desc, str(out.values.tolist())[:300], str(m)[:300])
+
+
+# ----------------------------------------------------------------------------------------------
 # contingency managers
 # ----------------------------------------------------------------------------------------------
 COUNT_KEYS = ["tp_count", "tn_count", "fp_count", "fn_count", "total_count"]
@@ -305,9 +420,9 @@ def contingency(ctx, i, use_model=True):
         d = rng.choice(list(fcst.dims))
         fcst = fcst.where(fcst[d] != fcst[d].values[rng.randrange(fcst.sizes[d])])
     # constructor arguments (None = not passed); the per-call arguments default to them
-    ctor_t = rng.choice([None, None, None, 0, 0.0, 0.5, -1.0, 0.0])
+    ctor_t = rng.choice([None, None, None, 0, 0.0, 0.5, -1.0, 0.0, 0.3, 0.001])
     ctor_op = rng.choice([None, None, None, operator.gt, operator.lt, operator.ge])
-    t = rng.choice([None, 0.0, 0.0, 0, -0.5, -2.0, 0.25, 1.0, 0.5, -0.25, 2.0])
+    t = rng.choice([None, None, None, 0.0, 0.0, 0, -0.5, -2.0, 0.25, 1.0, 0.5, -0.25, 2.0, 0.001, 0.3, 0.1 + 0.2, -1.5, 0.7])
     if ctor_t is not None and rng.random() < 0.6:
         t = None
     op = rng.choice([None, operator.ge, operator.gt, operator.le, operator.lt, operator.ge, operator.gt, operator.eq, operator.ne])
@@ -321,6 +436,17 @@ def contingency(ctx, i, use_model=True):
     dt = 0.001 if ctor_t is None else ctor_t          # documented signature defaults: 0.001, operator.ge
     dop = operator.ge if ctor_op is None else ctor_op
     teo = ThresholdEventOperator(**ckw)
+    # values on the threshold in force, one unit in the last place and 1e-12 ... 0.4 away from it (either side): the event status of a
+    # value is decided by the value itself, however close to the threshold it is
+    if rng.random() < 0.4:
+        t_eff = dt if t is None else t
+        fcst, obs = inject_near(rng, fcst, [t_eff], "float64"), inject_near(rng, obs, [t_eff], "float64")
+        ctx.count("contingency:near_threshold_values")
+        if t is None and ctor_t is None and use_model and (bool((fcst.values == t_eff).any()) or bool((obs.values == t_eff).any())):
+            # the model holds the signature default as the rational 1/1000, the code as the double nearest to it: a value equal to that
+            # double is a tie for the code only; the predicates below (numpy on the doubles) decide such cases
+            use_model = False
+            ctx.count("contingency:tie_with_signature_default(model not consulted)")
     rd, pd = gens.rand_dimspec(rng, sorted(set(fcst.dims) | set(obs.dims)), allow_bad=True)
     kw = {}
     if rd is not None:
@@ -480,6 +606,10 @@ def body(ctx, use_model):
         if not ctx.time_left():
             break
         discretise_arrays(ctx, i, use_model)
+    for i in range(ctx.n(120, 1500)):
+        if not ctx.time_left():
+            break
+        discretise_precision(ctx, i, use_model)
     for i in range(ctx.n(300, 3000)):
         if not ctx.time_left():
             break
